@@ -16,7 +16,7 @@ func init() {
 	register(&Rule{ID: "DT18", Min: 1, Run: ruleDT18,
 		Doc: "shared-state-not-mutated-in-place: outside replay, nothing writes into the storage of what replay built or of an event about to be recorded. The slices and maps held by Graph, Task and TaskMeta (Task.Results, Graph.Deps and the dependency sets inside it, ...) and the payload bytes of an Event (Event.Data) are shared by everyone who looks at them: sorting such a slice where it lies, filtering it with the s[:0]/append idiom, storing into its elements, copy()ing over it, appending to a prefix of it (append(data[:n], \"...\"...) writes into data's own array) or deleting from / inserting into such a map changes what compaction re-emits, what the readiness predicates see and what is written to the log - from code that only meant to look (a trace line, a summary, a statistics helper). Decided by following each mutated value back through sub-slices, phis, local variables, map lookups and range values to a field of those types, and through module functions that mutate a parameter (summarised to a fixed point) to their call sites. Edges and items a writing command adds provisionally to the graph it validates against (sequence, plan) are the documented exception. A local slice handed to a function that refills it in place must not be read afterwards through the old value (`ready` filtered by a debug helper, then ready[0])"})
 	register(&Rule{ID: "WR10", Min: 1, Run: ruleWR10,
-		Doc: "events-serialised-as-given: the functions that turn events into log lines marshal each Event as it was handed to them; none assigns to a field of the event on the way (`if ev.Origin == \"\" { ev.Origin = host }` before json.Marshal). Whenever the log is rewritten (plan, the torn-tail repair) the earlier events pass through the same serialiser, so a field stamped there changes the content of history that was already recorded"})
+		Doc: "events-serialised-as-given: the functions that turn events into log lines marshal each Event as it was handed to them; none assigns to a field of the event on the way (`if ev.Origin == \"\" { ev.Origin = host }` before json.Marshal). Whenever the log is rewritten (plan, the torn-tail repair) the earlier events pass through the same serialiser, so a field stamped there changes the content of history that was already recorded. Nor are the marshalled bytes handed to anything that rewrites them (an escaper, a pretty-printer): a home-made transformation of JSON text is a second encoder with corner cases of its own (surrogate pairs), and every rewrite runs history through it. A correct transformation cannot be told from a wrong one here and is reported alike"})
 }
 
 var inPlaceSorters = map[string]bool{
@@ -479,9 +479,76 @@ func ruleWR10(c *Ctx) {
 					}
 				}
 			}
+			// ... and what json.Marshal made of it is what is written: the bytes are not handed to anything that rewrites them
+			// (an escaper, a compressor, a pretty-printer). A home-made transformation of JSON text is a second JSON encoder
+			// with its own corner cases (surrogate pairs, escapes inside strings), and every rewrite of the log runs history
+			// through it
+			if cv, isCall := call.(*ssa.Call); isCall && bad == "" && cv.Referrers() != nil {
+				var data ssa.Value = cv
+				for _, u := range *cv.Referrers() {
+					if ex, ok := u.(*ssa.Extract); ok && ex.Index == 0 {
+						data = ex
+					}
+				}
+				seenD := map[ssa.Value]bool{}
+				var follow func(v ssa.Value, d int)
+				follow = func(v ssa.Value, d int) {
+					if v == nil || seenD[v] || d > 6 || v.Referrers() == nil || bad != "" {
+						return
+					}
+					seenD[v] = true
+					for _, u := range *v.Referrers() {
+						switch x := u.(type) {
+						case *ssa.Phi:
+							follow(x, d+1)
+						case *ssa.Slice:
+							follow(x, d+1)
+						case *ssa.Store:
+							if cell := cellOf(x.Addr); cell != nil && x.Val == v {
+								for _, ld := range cellLoads(cell) {
+									follow(ld, d+1)
+								}
+							}
+						case ssa.CallInstruction:
+							cc := x.Common()
+							n := calleeFullName(cc)
+							switch {
+							case n == "builtin append" || n == "builtin len" || n == "builtin copy":
+								if xv, ok := x.(*ssa.Call); ok {
+									follow(xv, d+1)
+								}
+							case strings.Contains(n, ".Write") || n == "io.WriteString" || strings.HasPrefix(n, "fmt.Fprint"):
+							default:
+								if g := calleeOf(cc); g != nil && c.InModule(g) {
+									// a module function handed the marshalled bytes: fine when it only writes them out
+									if res := g.Signature.Results(); res.Len() > 0 {
+										for i := 0; i < res.Len(); i++ {
+											switch t := res.At(i).Type().Underlying().(type) {
+											case *types.Slice:
+												if b, ok := t.Elem().Underlying().(*types.Basic); ok && b.Kind() == types.Uint8 {
+													bad = "the marshalled bytes are handed to " + c.Name(g) + " at " + c.Pos(x.Pos()) + ", which returns bytes of its own making"
+												}
+											case *types.Basic:
+												if t.Info()&types.IsString != 0 {
+													bad = "the marshalled bytes are handed to " + c.Name(g) + " at " + c.Pos(x.Pos()) + ", which returns a string of its own making"
+												}
+											}
+										}
+									}
+								} else if strings.HasPrefix(n, "bytes.") || strings.HasPrefix(n, "strings.") || strings.HasPrefix(n, "regexp.") || strings.HasPrefix(n, "(*regexp.") {
+									if !strings.HasSuffix(n, ".HasSuffix") && !strings.HasSuffix(n, ".HasPrefix") && !strings.HasSuffix(n, ".Contains") && !strings.HasSuffix(n, ".Equal") && !strings.HasSuffix(n, ".IndexByte") {
+										bad = "the marshalled bytes are rewritten by " + n + " at " + c.Pos(x.Pos())
+									}
+								}
+							}
+						}
+					}
+				}
+				follow(data, 0)
+			}
 			names = append(names, c.Name(f))
 			c.check(bad == "", c.Name(f), fmt.Sprintf("marshal-event#%d", k), c.Pos(call.Pos()), "the event is marshalled as it was handed in",
-				"the event is changed on its way to the log ("+bad+"): a rewrite of the log (plan, the torn-tail repair) passes every earlier event through this serialiser, so history that was already recorded comes out with different content")
+				"the event or its serialised form is changed on its way to the log ("+bad+"): a rewrite of the log (plan, the torn-tail repair) passes every earlier event through this serialiser, so history that was already recorded comes out with different content")
 		}
 	}
 	sort.Strings(names)
@@ -838,4 +905,115 @@ func (p *Prog) diagnosticFns() map[*ssa.Function]bool {
 	}
 	p.diagMemo = cand
 	return cand
+}
+
+// ------------------------------------------------------------------ OU22
+
+func init() {
+	register(&Rule{ID: "OU22", Min: 1, Run: ruleOU22,
+		Doc: "column-positions-come-from-the-row: the amount of padding a row formatter writes is computed from the terminal width and from what the row itself contains (the id printed, the text written so far) - never from a setting read from the environment or a configuration file. The id column is where the id printed ends at the right margin: a width taken from a setting (the configured id length) instead of the id in hand is right only while every id in the store was minted under the reader's own setting; ids of another length overflow the terminal or leave their column. The terminal-width function is the one sanctioned source of ambient layout input (an override of the detected width belongs there)"})
+}
+
+// readsSettings: f (transitively) consults the environment or reads a file by name: it hands back a configured value.
+func (c *Ctx) readsSettings(f *ssa.Function, seen map[*ssa.Function]bool) string {
+	if f == nil || seen[f] || f.Blocks == nil {
+		return ""
+	}
+	seen[f] = true
+	for _, call := range callsIn(f) {
+		switch n := calleeFullName(call.Common()); n {
+		case "os.Getenv", "os.LookupEnv", "os.Environ", "os.ReadFile", "os.UserHomeDir", "os.UserConfigDir":
+			return n + " in " + c.Name(f)
+		}
+		if g := calleeOf(call.Common()); g != nil && c.InModule(g) {
+			if w := c.readsSettings(g, seen); w != "" {
+				return w
+			}
+		}
+	}
+	return ""
+}
+
+func ruleOU22(c *Ctx) {
+	width := map[*ssa.Function]bool{}
+	if tw := c.ErgoFn("getTerminalWidth"); tw != nil {
+		width[tw] = true
+		for g := range c.F.TransitiveCallees(tw) {
+			width[g] = true
+		}
+	}
+	measure := map[*ssa.Function]bool{}
+	if vl := c.ErgoFn("visibleLen"); vl != nil {
+		measure[vl] = true
+	}
+	n := 0
+	for _, f := range c.Fns {
+		if Outermost(f).Pkg != c.Ergo || f.Blocks == nil || width[f] {
+			continue
+		}
+		calls, counts := c.paddingCalls(f)
+		for i, call := range calls {
+			n++
+			bad := ""
+			seen := map[ssa.Value]bool{}
+			var walk func(v ssa.Value, d int)
+			walk = func(v ssa.Value, d int) {
+				if v == nil || seen[v] || d > 30 || bad != "" {
+					return
+				}
+				seen[v] = true
+				switch x := v.(type) {
+				case *ssa.Call:
+					// a measurement of something written (len(id), visibleLen(text)) is the row's own content, however the
+					// text measured was chosen
+					if nme := calleeFullName(&x.Call); nme == "builtin len" || strings.Contains(nme, "runewidth.") || strings.HasPrefix(nme, "unicode/utf8.RuneCount") {
+						return
+					}
+					if g := calleeOf(&x.Call); g != nil && measure[g] {
+						return
+					}
+					if g := calleeOf(&x.Call); g != nil && c.InModule(g) && !width[g] {
+						if w := c.readsSettings(g, map[*ssa.Function]bool{}); w != "" {
+							bad = c.Name(g) + " (" + w + ")"
+							return
+						}
+					}
+					for _, a := range x.Call.Args {
+						walk(a, d+1)
+					}
+				case *ssa.UnOp:
+					if x.Op == token.MUL {
+						if cell := cellOf(x.X); cell != nil {
+							for _, st := range cellStores(cell) {
+								walk(st.Val, d+1)
+							}
+							return
+						}
+						if g, ok := x.X.(*ssa.Global); ok {
+							// a package-level variable filled from a setting at start-up
+							for _, fn := range c.Fns {
+								for _, st := range storesTo(fn, g) {
+									walk(st.Val, d+1)
+								}
+							}
+							return
+						}
+					}
+					walk(x.X, d+1)
+				case ssa.Instruction:
+					for _, op := range x.Operands(nil) {
+						if *op != nil {
+							walk(*op, d+1)
+						}
+					}
+				}
+			}
+			walk(counts[i], 0)
+			c.check(bad == "", c.Name(f), fmt.Sprintf("padding-from-the-row#%d", i+1), c.Pos(call.Pos()), "the padding is computed from the terminal width and the row's own content",
+				"the amount of padding written here depends on a setting ("+bad+") instead of on what the row contains: the column is right only for rows whose content happens to match the reader's configuration (an id minted under another id length overflows the terminal or leaves its column)")
+		}
+	}
+	if n == 0 {
+		c.unk("<module>", "padding-from-the-row#0", "-", "no padding found in the row formatters")
+	}
 }
